@@ -990,10 +990,13 @@ CONTENT_FUNCS = {"sorted", "reversed", "set", "frozenset", "str.lower", "str.upp
                  "os.path.normpath", "os.path.abspath", "os.path.basename", "unidecode", "unicodedata.normalize"}
 # operations applied today, each confirmed by reading cli.py (option -> operation -> why it is part of the documented mapping)
 VALUE_OPS_OK: Dict[str, Dict[str, str]] = {
-    "code_generator": {".rsplit()": "dotted path of the generator class is split into module and attribute"},
-    "code_generator_kwargs": {".split()": "NAME=VALUE pairs", "[slice]": "quotes around a quoted value are removed"},
+    "code_generator": {".rsplit()": "dotted path of the generator class is split into module and attribute",
+                       ".rpartition()": "the same split, spelled with rpartition"},
+    "code_generator_kwargs": {".split()": "NAME=VALUE pairs", ".partition()": "NAME=VALUE pairs, spelled with partition",
+                              "[slice]": "quotes around a quoted value are removed"},
     "dict_keys_regex": {"string-building": "documented anchoring of command-line patterns (RX-1 decides its shape)"},
-    "merge": {".split()": "policy_argument syntax", "[0]": "policy name", "[slice]": "policy arguments"},
+    "merge": {".split()": "policy_argument syntax", ".partition()": "policy_argument syntax, spelled with partition",
+              "[0]": "policy name", "[slice]": "policy arguments"},
     "preamble": {".strip()": "documented trimming of the preamble (SHAPE rules decide it)"},
     "output": {"string-building": "message naming the output file"},
     "model": {"string-building": "-m entries get an empty lookup prepended (list concatenation)"},
@@ -1043,6 +1046,17 @@ def rule_optflow6(ctx: Ctx, only=None, rule_id: str = "OPTFLOW-6") -> RuleResult
         ok = tv in ARGPARSE_TYPES_OK
         rr.ob(CLI, "Cli._create_argparser", f"--{dest}: type={tv}", st_t, DISCHARGED if ok else VIOLATED,
               "plain" if ok else f"`type={tv}` rewrites what the user typed before the library sees it", node.lineno)
+        # collecting actions start from the default: with a non-empty default list the defaults stay next to what the user gave
+        act = norm(kw["action"]).strip("'\"") if "action" in kw else "store"
+        dflt = kw.get("default")
+        if act in ("extend", "append", "append_const"):
+            rr.instances += 1
+            nonempty = dflt is not None and not (isinstance(dflt, ast.Constant) and dflt.value is None) and not (
+                isinstance(dflt, (ast.List, ast.Tuple)) and not dflt.elts)
+            rr.ob(CLI, "Cli._create_argparser", f"--{dest}: action={act}, default={norm(dflt) if dflt is not None else None}",
+                  "what the user gives for an option replaces the option's default", VIOLATED if nonempty else DISCHARGED,
+                  f"argparse `{act}` adds to the default {norm(dflt)[:40]}: the default values stay in effect next to the given ones"
+                  if nonempty else "no default to add to", node.lineno)
     st = ("between the parsed command line and the library call, the option's value is only taken apart or wrapped in "
           "the documented way; it is not re-spelled, re-ordered or merged")
     for dest in sorted(opts):
@@ -1372,3 +1386,152 @@ def rule_argfwd1(ctx: Ctx) -> RuleResult:
     rr.ob(w.relpath, w.qualname, norm(c)[:80], "a keyword without a converter keeps its name and value", DISCHARGED if ok3 else VIOLATED,
           why3, c.lineno)
     return rr
+
+
+def rule_argval1(ctx: Ctx) -> RuleResult:
+    """ARGVAL-1: NAME=VALUE items of --code-generator-kwargs without `=` are rejected."""
+    rr = RuleResult("ARGVAL-1", "a --code-generator-kwargs item that is not NAME=VALUE is an error", floor=1)
+    f = ctx.prog.func(CLI, "Cli.set_args")
+    rr.instances += 1
+    st = ("an item without `=` raises (unpacking the two parts of split('=', 1) fails): an invalid argument must fail the run "
+          "instead of being passed on as NAME with an empty value")
+    sites = []
+    for n in walk_no_nested(f.node):
+        if isinstance(n, ast.Assign) and isinstance(n.value, ast.Call) and isinstance(n.value.func, ast.Attribute) and \
+                n.value.func.attr in ("split", "partition", "rsplit", "rpartition") and n.value.args and \
+                isinstance(n.value.args[0], ast.Constant) and n.value.args[0].value == "=":
+            sites.append(n)
+    if not sites:
+        raise AnalysisError("ARGVAL-1: no `item.split('=', ...)` in Cli.set_args")
+    n = sites[0]
+    meth = n.value.func.attr
+    two = isinstance(n.targets[0], (ast.Tuple, ast.List)) and len(n.targets[0].elts) == 2 and not any(
+        isinstance(e, ast.Starred) for e in n.targets[0].elts)
+    checked = any(isinstance(x, ast.If) and "'='" in norm(x.test) and any(isinstance(y, ast.Raise) for y in ast.walk(x))
+                  for x in walk_no_nested(f.node))
+    ok = (meth in ("split", "rsplit") and two) or checked
+    rr.ob(f.relpath, f.qualname, norm(n)[:70], st, DISCHARGED if ok else VIOLATED,
+          "two-name unpacking of split: raises ValueError without `=`" if ok else
+          f"`{meth}` never fails: an item without `=` becomes NAME with an empty value and is handed to the generator", n.lineno)
+    return rr
+
+
+def rule_optflow7(ctx: Ctx) -> RuleResult:
+    """OPTFLOW-7: what the user gave for an option is never replaced by a constant because of what it contains."""
+    rr = RuleResult("OPTFLOW-7", "an option's value is not replaced by a constant depending on its own content", floor=1)
+    fl = Flow(ctx)
+    st = ("every value the user gives for an option takes effect: no branch on the option's own content throws the given list away "
+          "and puts a fixed value in its place")
+    n_checked = 0
+    for f in fl.funcs:
+        for n in walk_no_nested(f.node):
+            if not isinstance(n, ast.Assign) or len(n.targets) != 1:
+                continue
+            tg = n.targets[0]
+            if not isinstance(tg, (ast.Name, ast.Attribute)):
+                continue
+            # the variable carried an option before this statement?
+            before = {}
+            if isinstance(tg, ast.Name):
+                for d in (ctx.defs_reaching(f, n, tg.id) or []):
+                    cell = (f.key, tg.id, 0 if d is f.node else id(d))
+                    for o, ks in fl.taint.get(cell, {}).items():
+                        before.setdefault(o, set()).update(ks)
+            else:
+                for cell in fl.read_cells(f, tg):
+                    for o, ks in fl.taint.get(cell, {}).items():
+                        before.setdefault(o, set()).update(ks)
+            if not before:
+                continue
+            n_checked += 1
+            v = n.value
+            has_taint = bool(fl.expr_taint(f, v))
+            nonempty_const = (isinstance(v, (ast.List, ast.Tuple, ast.Set)) and v.elts) or (isinstance(v, ast.Dict) and v.keys) or \
+                (isinstance(v, ast.Constant) and v.value not in (None, "", 0, False))
+            if has_taint or not nonempty_const:
+                continue
+            # under a test on the same option?
+            p = f.module.parents.get(n)
+            cond = None
+            while p is not None and p is not f.node:
+                if isinstance(p, ast.If) and set(fl.expr_taint(f, p.test)) & set(before) and \
+                        norm(tg) in {norm(x) for x in ast.walk(p.test) if isinstance(x, (ast.Name, ast.Attribute))}:
+                    cond = p      # the test looks at the very variable that is then overwritten
+                    break
+                p = f.module.parents.get(p)
+            if cond is None:
+                continue
+            rr.instances += 1
+            o = sorted(set(before))[0]
+            rr.ob(f.relpath, f.qualname, norm(n)[:70], st, VIOLATED,
+                  f"under `{norm(cond.test)[:40]}` the value of --{o.replace('_', '-')} is replaced by the constant `{norm(v)[:30]}`: the "
+                  f"other values the user gave are dropped (e.g. `--merge exact number_3` behaves like `--merge exact`)", n.lineno)
+    rr.instances += 1
+    rr.ob(CLI, "Cli", f"{n_checked} re-assignments of option variables", st, DISCHARGED, "no option is overwritten by a constant", 1)
+    return rr
+
+
+def rule_sibconv1(ctx: Ctx) -> RuleResult:
+    """SIBCONV-1: a generator keyword that gets a converter for one framework gets it for every framework that accepts it."""
+    rr = RuleResult("SIBCONV-1", "the frameworks agree on how a generator keyword given on the command line is converted", floor=1)
+    prog = ctx.prog
+    cli = prog.cls(CLI, "Cli")
+    table = cli.assigns.get("MODEL_GENERATOR_MAPPING")
+    if not isinstance(table, ast.Dict):
+        raise AnalysisError("SIBCONV-1: Cli.MODEL_GENERATOR_MAPPING is not a dict literal")
+    entries = {}
+    for k, v in zip(table.keys, table.values):
+        if isinstance(k, ast.Constant) and isinstance(v, ast.Call) and v.args:
+            tg = [t for t in ctx.cg.callable_values(None, cli.module, v.args[0]) if isinstance(t, ClassInfo)]
+            entries[k.value] = (tg[0] if tg else None, {kw.arg: norm(kw.value) for kw in v.keywords if kw.arg}, v)
+    convs = {}
+    for name, (cls_, kws, node) in entries.items():
+        for kname, conv in kws.items():
+            convs.setdefault(kname, {})[name] = conv
+    if not convs:
+        raise AnalysisError("SIBCONV-1: no keyword converter in MODEL_GENERATOR_MAPPING")
+
+    def accepts(cls_, kname) -> Optional[bool]:
+        """does the constructor chain of cls_ take `kname` as a parameter (and not force it)?"""
+        if cls_ is None:
+            return None
+        for k in prog.mro(cls_):
+            for init in k.methods.get("__init__", []):
+                forced = any(isinstance(n, ast.Assign) and isinstance(n.targets[0], ast.Subscript) and isinstance(n.targets[0].slice, ast.Constant)
+                             and n.targets[0].slice.value == kname for n in walk_no_nested(init.node)) or any(
+                    isinstance(n, ast.Dict) and any(isinstance(k_, ast.Constant) and k_.value == kname for k_ in n.keys if k_ is not None)
+                    for n in walk_no_nested(init.node)) or any(
+                    isinstance(n, ast.Call) and isinstance(n.func, ast.Attribute) and n.func.attr in ("update", "setdefault") and any(
+                        kw.arg == kname for kw in n.keywords) for n in walk_no_nested(init.node)) or any(
+                    isinstance(n, ast.Call) and norm(n.func).endswith("__init__") and any(kw.arg == kname and isinstance(kw.value, ast.Constant)
+                                                                                            for kw in n.keywords)
+                    for n in walk_no_nested(init.node))
+                if forced:
+                    return False
+                if kname in init.params:
+                    return True
+                if not init.node.args.kwarg:
+                    return False
+        return False
+
+    for kname, by_fw in sorted(convs.items()):
+        want = sorted(set(by_fw.values()))[0]
+        for name, (cls_, kws, node) in sorted(entries.items()):
+            if name in by_fw:
+                continue
+            acc = accepts(cls_, kname)
+            if not acc:
+                continue
+            rr.instances += 1
+            rr.ob(CLI, f"Cli.MODEL_GENERATOR_MAPPING[{name!r}]", f"{kname}=<no converter>",
+                  f"`--code-generator-kwargs {kname}=false` means the same for every framework whose generator takes `{kname}`",
+                  VIOLATED, f"`{kname}` is converted with {want} for {sorted(by_fw)} but passed as the raw string for `{name}`: the "
+                            f"non-empty string \"false\" is truthy there", node.lineno)
+    rr.instances += 1
+    rr.ob(CLI, "Cli.MODEL_GENERATOR_MAPPING", f"{len(entries)} frameworks, converters for {sorted(convs)}",
+          "converters are attached consistently", DISCHARGED, "checked", table.lineno)
+    return rr
+
+
+def rule_reset1_structure(ctx: Ctx) -> RuleResult:
+    return rule_reset1(ctx, only_attrs=["structure_fn"], rule_id="RESET-1s")
